@@ -31,7 +31,9 @@ PLAN = {
         unit("side", "TestC12Concurrent", 100, 1500, seed_off=400),
         {"pkg": "side", "test": "FuzzC12", "kind": "fuzz", "fuzztime": {"thorough": "180s"}, "checks": {"quick": 0, "thorough": 0}, "replay": None}]},
     "C13": {"level": "fault_enumeration", "units": [unit("side", "TestC13", 250, 3000, replay="TestReplayC13")]},
-    "C14": {"level": "exploration", "units": [unit("side", "TestC14", 1000, 15000, replay="TestReplayC14")]},
+    "C14": {"level": "exploration", "units": [
+        unit("side", "TestC14", 1000, 15000, replay="TestReplayC14"),
+        {"pkg": "side", "test": "FuzzC14", "kind": "fuzz", "fuzztime": {"thorough": "180s"}, "checks": {"quick": 0, "thorough": 0}, "replay": None}]},
     "C15": {"level": "exploration", "units": [
         unit("disc", "TestC15", 500, 10000, replay="TestReplayC15"),
         unit("disc", "TestC15Process", 50, 400, seed_off=700, workers={"quick": 1, "thorough": 4})]},
